@@ -1,4 +1,5 @@
 import Drpc.Driver.Wire
+import Drpc.Driver.Reader
 /-
   drpcmodel: line-protocol driver.  One request per line `cmd key=value …`, one answer per line.
   Every request is self-contained (no state is kept between lines).
@@ -10,7 +11,7 @@ def dispatch (line : String) : String :=
   match (line.splitOn " ").filter (· ≠ "") with
   | [] => "bad-op"
   | cmd :: args =>
-    let r := (Wire.handle cmd args)
+    let r := (Wire.handle cmd args) <|> (Reader.handle cmd args)
     match r with
     | some s => s
     | none => "bad-op"
